@@ -196,6 +196,35 @@ func ruleCollectPackages(c *core.Ctx) {
 				okSame = false
 			}
 		}
+		// every package is registered: an error-free return that is not the shortcut lies behind the store into the
+		// collected map (a fast path in front of it leaves the package out of the namespace-conflict, cycle and depth checks)
+		var storeBlock *ssa.BasicBlock
+		for _, b := range sf.Blocks {
+			for _, ins := range b.Instrs {
+				if mu, ok := ins.(*ssa.MapUpdate); ok && mu.Map == collP {
+					storeBlock = b
+				}
+			}
+		}
+		inFound := map[*ssa.BasicBlock]bool{}
+		for _, b := range regionOf(sf, foundSucc) {
+			inFound[b] = true
+		}
+		okReg, nReg := storeBlock != nil, 0
+		for _, b := range sf.Blocks {
+			for _, ins := range b.Instrs {
+				r, ok := ins.(*ssa.Return)
+				if !ok || !errResultNil(r) || inFound[b] {
+					continue
+				}
+				nReg++
+				if storeBlock == nil || !(storeBlock == b || storeBlock.Dominates(b)) {
+					okReg = false
+				}
+			}
+		}
+		c.Check(okReg && nReg > 0, rule, "collectPackages/registered before any success return", d.Pos(), "every error-free return outside the shortcut is dominated by the store into the collected map",
+			"collectPackages can return a package without an error before registering it in the collected map: such packages escape the namespace-conflict check (a second package with the same namespace silently wins or loses by import order), the cycle test and the depth limit")
 		c.Check(okSame && nOK > 0, rule, "collectPackages/shortcut returns the collected package", d.Pos(), "the already-collected branch returns the entry of the collected map",
 			"the already-collected branch returns something other than the entry of the collected map: a package reached over a second import path is represented by a second PackageInfo whose own imports were never resolved (nil Package pointers downstream)")
 	}
